@@ -33,18 +33,18 @@ const (
 
 // per-request fault kinds
 const (
-	nfConnReset    = "net_conn_reset"       // error before any response ("connection reset by peer": retried by the handler)
-	nfConnOther    = "net_conn_error"       // error before any response (not retried)
-	nf5xx          = "net_5xx"              // JSON error body
-	nf5xxPlain     = "net_5xx_plain"        // non-JSON error body
-	nf404          = "net_404"              //
-	nfShort        = "net_short_body"       // io.ErrUnexpectedEOF after a prefix
-	nfReset        = "net_reset_mid_body"   // connection reset by peer after a prefix
-	nfFlip         = "net_flipped_byte"     //
-	nfStall        = "net_stall"            // body goes quiet for longer than the read timeout
-	nfRangeIgnored = "net_range_ignored"    // 200 with the whole blob
+	nfConnReset    = "net_conn_reset"        // error before any response ("connection reset by peer": retried by the handler)
+	nfConnOther    = "net_conn_error"        // error before any response (not retried)
+	nf5xx          = "net_5xx"               // JSON error body
+	nf5xxPlain     = "net_5xx_plain"         // non-JSON error body
+	nf404          = "net_404"               //
+	nfShort        = "net_short_body"        // io.ErrUnexpectedEOF after a prefix
+	nfReset        = "net_reset_mid_body"    // connection reset by peer after a prefix
+	nfFlip         = "net_flipped_byte"      //
+	nfStall        = "net_stall"             // body goes quiet for longer than the read timeout
+	nfRangeIgnored = "net_range_ignored"     // 200 with the whole blob
 	nfUploadLost   = "net_upload_reply_lost" // the upload was committed but the reply is lost
-	nfUploadCut    = "net_upload_cut"       // the registry stops reading the upload body
+	nfUploadCut    = "net_upload_cut"        // the registry stops reading the upload body
 )
 
 // chunk plan kinds (chunksums/ endpoint)
